@@ -50,10 +50,14 @@ type verifEvalNode struct {
 	nargs  int
 	reply  any
 	err    error
+	onEval func(ctx context.Context, keys []string) // optional observer (H08c6)
 }
 
 func (n *verifEvalNode) Eval(ctx context.Context, script string, keys []string, args ...interface{}) *red.Cmd {
 	n.evals++
+	if n.onEval != nil {
+		n.onEval(ctx, keys)
+	}
 	n.script, n.keys, n.nargs = script, keys, len(args)
 	if len(args) == 1 { // go-redis expands a single []string argument into its elements
 		if ss, ok := args[0].([]string); ok {
